@@ -227,6 +227,14 @@ fn regex_to_range_map(bindings: &Map<Var, Regex>, re: &Regex) -> RangeMap<()> {
             let mut map1 = regex_to_range_map(bindings, re1);
             let map2 = regex_to_range_map(bindings, re2);
             map1.remove_ranges(&map2);
+
+            // Ranges are over `u32`s. Make sure that no range starts or ends in the surrogate
+            // gap (e.g. in `_ # ['\u{0}'-'\u{D7FF}']`): range ends are converted to `char`s in
+            // code generation.
+            let mut surrogates: RangeMap<()> = RangeMap::new();
+            surrogates.insert(0xD800, 0xDFFF, (), merge_values);
+            map1.remove_ranges(&surrogates);
+
             map1
         }
     }
